@@ -274,6 +274,8 @@ pub struct Monitor {
     pub ether_touched: BTreeSet<Address>,
     /// a completed SELFDESTRUCT credited a beneficiary whose balance wrapped past 2^256
     pub sd_credit_wrapped: bool,
+    /// a call or create of this transaction was refused with CallTooDeep (the depth limit was reached)
+    pub too_deep_seen: bool,
     /// depth leak already attributed to inner frames of this transaction
     depth_leak: i64,
     /// every address targeted by a call frame in this transaction
@@ -314,6 +316,7 @@ impl Monitor {
         self.top_delegate_checked = false;
         self.top_gas = None;
         self.depth_leak = 0;
+        self.too_deep_seen = false;
         self.burned_total = alloy_primitives::U512::ZERO;
         self.ether_touched.clear();
         self.addresses_called.clear();
@@ -496,6 +499,9 @@ impl Monitor {
 
     fn frame_end<DB: Database>(&mut self, context: &mut EvmContext<DB>, inputs: FrameInputs, result: InstructionResult, out_address: Option<Address>, gas: Gas) {
         self.event(10 + result as u64);
+        if result == InstructionResult::CallTooDeep {
+            self.too_deep_seen = true;
+        }
         if self.trace {
             eprintln!("{}END {result:?} addr={out_address:?} gas_left={}", "  ".repeat(self.frames.len().saturating_sub(1)), gas.remaining());
         }
